@@ -158,6 +158,14 @@ func doBytes(c *vlib.Ctx, b []byte, origin string, verbose bool) {
 	c.Count("dec:" + origin)
 	rp := replay{Kind: "bytes", Codec: "cbor", Hex: hx(b)}
 	fail := func(kind, msg string) {
+		if kind == "typed-accepts-what-generic-rejects" && o.genG.err != nil && strings.Contains(o.genG.err.Error(), "repeat map key") {
+			// one signature for the class: bindnode's struct assembler accepts a repeated field
+			// (later value wins, list elements are appended), basicnode's map rejects it
+			c.Fail("dec:cbor:typed-accepts-what-generic-rejects:repeated-map-key",
+				"a DAG-CBOR block with a repeated struct field is rejected when loaded with the generic prototype and accepted when loaded with the typed prototype (e.g. {\"Entries\":[h'01'],\"Entries\":[h'02',h'03']} decodes to the chunk [01,02,03]): "+msg,
+				replay{Kind: "bytes", Codec: "cbor", Hex: "a267456e747269657381410167456e74726965738241024103"})
+			return
+		}
 		min := shrinkBytes(b, func(x []byte) bool { return bytesFailure(observe(x)) == kind })
 		c.Fail("dec:cbor:"+kind+":"+hx(min), msg, replay{Kind: "bytes", Codec: "cbor", Hex: hx(min)})
 		if verbose {
@@ -220,7 +228,11 @@ func emitDec(c *vlib.Ctx, origin string) bool {
 }
 
 func describe(o decObs) string {
-	return fmt.Sprintf("generic=%s typed-ad=%s typed-chunk=%s unwrap(generic)-ad=%s unwrap(generic)-chunk=%s", o.genG, o.adG, o.chG, o.adViaGen, o.chViaGen)
+	s := fmt.Sprintf("generic=%s typed-ad=%s typed-chunk=%s", o.genG, o.adG, o.chG)
+	if o.genG.ok() {
+		s += fmt.Sprintf(" unwrap(generic)-ad=%s unwrap(generic)-chunk=%s", o.adViaGen, o.chViaGen)
+	}
+	return s
 }
 
 // bytesFailure: which clause of the property the observation violates ("" = none)
@@ -373,7 +385,7 @@ func oddValues() map[string][]byte {
 		"tag42-nonminimal": {0xd9, 0, 42, 0x45, 0, 1, 0x55, 0, 0}, "tag-huge": {0xdb, 0x80, 0, 0, 0, 0, 0, 0, 0, 0x01},
 		"indef-text": {0x7f, 0x61, 0x61, 0x62, 0x62, 0x63, 0xff}, "indef-text-empty": {0x7f, 0xff}, "indef-bytes": {0x5f, 0x41, 0x01, 0x42, 0x02, 0x03, 0xff}, "indef-bytes-mixed": {0x5f, 0x61, 0x61, 0xff},
 		"indef-bytes-nested": {0x5f, 0x5f, 0xff, 0xff}, "indef-list": {0x9f, 0x61, 0x61, 0xff}, "indef-list-empty": {0x9f, 0xff}, "indef-map": {0xbf, 0x61, 0x61, 0x01, 0xff}, "indef-map-odd": {0xbf, 0x61, 0x61, 0xff},
-		"indef-link": {0xd8, 42, 0x5f, 0x41, 0x00, 0x44, 1, 0x55, 0, 0, 0xff},
+		"indef-link":      {0xd8, 42, 0x5f, 0x41, 0x00, 0x44, 1, 0x55, 0, 0, 0xff},
 		"text-nonminimal": {0x78, 0x01, 0x61}, "text-nonminimal8": {0x7b, 0, 0, 0, 0, 0, 0, 0, 1, 0x61}, "bytes-nonminimal": {0x59, 0, 1, 0x07}, "list-nonminimal": {0x98, 0x01, 0x61, 0x61}, "false-via-simple": {0xf8, 20},
 		"reserved-28": {0x1c}, "reserved-31-uint": {0x1f}, "reserved-text-30": {0x7e}, "simple-0": {0xe0}, "break": {0xff}, "key-int": cat(head(5, 1, 0), []byte{1, 1}), "key-bytes": cat(head(5, 1, 0), rBytes([]byte("a")), []byte{1}),
 		"key-tagged-text": cat(head(5, 1, 0), []byte{0xc1}, rText("a"), []byte{1}), "key-indef-text": cat(head(5, 1, 0), []byte{0x7f, 0x61, 0x61, 0xff, 1}), "dup-key-map": rMap([]kv{{"a", []byte{1}}, {"a", []byte{1}}}),
@@ -642,7 +654,10 @@ func observeJSON(b []byte) (genG, adG, chG, adViaGen, chViaGen guarded, ad, adGe
 
 func jsonFailure(b []byte) (string, string) {
 	genG, adG, chG, adViaGen, chViaGen, ad, adGen, ch, chGen := observeJSON(b)
-	desc := fmt.Sprintf("generic=%s typed-ad=%s typed-chunk=%s unwrap(generic)-ad=%s unwrap(generic)-chunk=%s", genG, adG, chG, adViaGen, chViaGen)
+	desc := fmt.Sprintf("generic=%s typed-ad=%s typed-chunk=%s", genG, adG, chG)
+	if genG.ok() {
+		desc += fmt.Sprintf(" unwrap(generic)-ad=%s unwrap(generic)-chunk=%s", adViaGen, chViaGen)
+	}
 	for _, g := range []guarded{genG, adG, chG, adViaGen, chViaGen} {
 		if g.panicked != "" {
 			return "panic", desc
@@ -655,6 +670,11 @@ func jsonFailure(b []byte) (string, string) {
 		if chViaGen.ok() != chG.ok() || (chG.ok() && !chEq(ch, chGen)) {
 			return "generic-differs-from-typed-chunk", desc
 		}
+	} else if adG.ok() || chG.ok() {
+		if genG.err != nil && strings.Contains(genG.err.Error(), "repeat map key") {
+			return "typed-accepts-what-generic-rejects:repeated-map-key", desc
+		}
+		return "typed-accepts-what-generic-rejects", desc
 	}
 	if adG.ok() && allUTF8(ad) {
 		if m := reencodes(adOps(ad)); m != "" {
@@ -676,7 +696,10 @@ func doJSONBytes(c *vlib.Ctx, b []byte, verbose bool) {
 	if verbose {
 		fmt.Printf("json %q: %s\n", b, desc)
 	}
-	if k != "" {
+	if k == "typed-accepts-what-generic-rejects:repeated-map-key" {
+		c.Fail("dec:json:"+k, "a DAG-JSON block with a repeated struct field is rejected by the generic prototype and accepted by the typed one: "+desc,
+			replay{Kind: "bytes", Codec: "json", Hex: hx([]byte(`{"Entries":[],"Entries":[]}`))})
+	} else if k != "" {
 		min := shrinkBytes(b, func(x []byte) bool { kk, _ := jsonFailure(x); return kk == k })
 		c.Fail("dec:json:"+k+":"+strconv.QuoteToASCII(string(min)), desc, replay{Kind: "bytes", Codec: "json", Hex: hx(min)})
 	}
@@ -804,7 +827,7 @@ func doDeep(c *vlib.Ctx, codec string, depth int, verbose bool) {
 			} else {
 				what = "'[' repeated (nested arrays)"
 			}
-			c.Fail("load:"+mode+":"+codec+":deep-nesting-kills-process", fmt.Sprintf("a %s block of %s to depth %d, loaded with the %s prototype, does not return an error: the process dies (%s)", codec, what, depth, mode, detail),
+			c.Fail("load:"+mode+":"+codec+":deep-nesting-kills-process", fmt.Sprintf("a %s block of %s to depth %d, loaded with the %s prototype through lsys.Load, does not return an error: the process dies (%s; maximum goroutine stack %s). The decoder recurses once per nesting level and its allocation budget does not bound the depth: with the default 1 GB stack %d levels (a %.1f MB block) are enough", codec, what, depth, mode, detail, map[bool]string{true: "default", false: fmt.Sprintf("capped at %d MB for this quick run", maxStack>>20)}[maxStack == 0], map[string]int{"cbor": 2600000, "json": 5000000}[codec], map[string]float64{"cbor": 2.6, "json": 10}[codec]),
 				replay{Kind: "deep", Codec: codec, Depth: map[string]int{"cbor": 2600000, "json": 5000000}[codec]})
 		}
 	}
